@@ -486,6 +486,209 @@ pub fn exec_live(case: &Case) -> Option<Line> {
         nontrivial: case.eps.len() >= 2,
     })
 }
+// ---------------------------------------------------------------- pipeline
+
+/// One request of a pipeline case: method, raw target path, and the bytes of
+/// the version header value (None: no such header).
+#[derive(Serialize, Deserialize, Clone, Debug)]
+pub struct PipeReq {
+    pub method: String,
+    pub path: String,
+    pub header: Option<Vec<u8>>,
+}
+
+/// The whole of `http_request_handle` up to the handler call: a table served
+/// by a real server under a version policy (`policy_max`: None = unversioned,
+/// Some(i) = ClientSpecifiesVersionInHeader with max_version chain[i]) and
+/// requests whose version header is absent, a chain version, a version
+/// between two chain versions, newer than the maximum, not a version at all or
+/// not ASCII.
+#[derive(Serialize, Deserialize, Clone, Debug)]
+pub struct PipeCase {
+    pub chain: Vec<String>,
+    pub eps: Vec<EpSpec>,
+    pub policy_max: Option<usize>,
+    pub reqs: Vec<PipeReq>,
+}
+
+fn hdr_ok_for_hyper(v: &[u8]) -> bool {
+    !v.iter().any(|c| (*c < 32 && *c != b'\t') || *c == 127)
+}
+
+pub fn exec_pipeline(case: &PipeCase) -> Option<Line> {
+    use crate::live::*;
+    let chain: Vec<Version> = case.chain.iter().map(|s| Version::parse(s).unwrap()).collect();
+    let (codes, api) = register_all(&chain, &case.eps);
+    let api = api?;
+    let rt = rt();
+    let started = {
+        let _g = rt.enter();
+        let mut config = dropshot::ConfigDropshot::default();
+        config.bind_address = "127.0.0.1:0".parse().unwrap();
+        let mut b = dropshot::ServerBuilder::new(api, (), quiet_log()).config(config);
+        if let Some(i) = case.policy_max {
+            b = b.version_policy(dropshot::VersionPolicy::Dynamic(Box::new(
+                dropshot::ClientSpecifiesVersionInHeader::new(http::HeaderName::from_static("x-v"), chain[i].clone()),
+            )));
+        }
+        b.start().map_err(|e| e.to_string())
+    };
+    let mut obs: Vec<Obs> = vec![];
+    let mut hdrs: Vec<String> = vec![];
+    let reqs: Vec<&PipeReq> = case
+        .reqs
+        .iter()
+        .filter(|r| wire_safe(&r.path) && r.header.as_ref().map(|h| hdr_ok_for_hyper(h)).unwrap_or(true))
+        .collect();
+    let did_start = started.is_ok();
+    if let Ok(server) = started {
+        let addr = server.local_addr();
+        for r in &reqs {
+            let mut req = format!("{} {} HTTP/1.1\r\nHost: localhost\r\n", r.method, r.path).into_bytes();
+            if let Some(h) = &r.header {
+                req.extend_from_slice(b"x-v: ");
+                req.extend_from_slice(h);
+                req.extend_from_slice(b"\r\n");
+            }
+            req.extend_from_slice(b"\r\n");
+            let resp = roundtrip(addr, &req, false).ok();
+            obs.push(match resp {
+                None => Obs::Panic,
+                Some(r) => match r.status {
+                    200 => match serde_json::from_slice::<Echo>(&r.body) {
+                        Ok(e) => Obs::Found {
+                            id: e.op,
+                            vars: e.vars.into_iter().map(|(k, d)| (k, parse_variable_value(&d))).collect(),
+                            ctype: e.ctype,
+                            maxbytes: e.maxbytes,
+                        },
+                        Err(_) => Obs::Err { status: 200 },
+                    },
+                    404 => Obs::E404,
+                    400 => Obs::E400,
+                    405 => Obs::E405 {
+                        allow: r
+                            .header_all("allow")
+                            .iter()
+                            .flat_map(|v| {
+                                String::from_utf8_lossy(v)
+                                    .split(',')
+                                    .map(|s| s.trim().to_string())
+                                    .filter(|s| !s.is_empty())
+                                    .collect::<Vec<_>>()
+                            })
+                            .collect(),
+                    },
+                    s => Obs::Err { status: s },
+                },
+            });
+            // what the policy is given: the value OWS-trimmed by hyper
+            hdrs.push(match &r.header {
+                None => "HAbsent".to_string(),
+                Some(v) => {
+                    let mut a = v.as_slice();
+                    while let [b' ' | b'\t', rest @ ..] = a {
+                        a = rest;
+                    }
+                    while let [rest @ .., b' ' | b'\t'] = a {
+                        a = rest;
+                    }
+                    if a.iter().all(|c| (*c >= 32 && *c < 127) || *c == b'\t') {
+                        format!("(HStr {})", g_bytes(a))
+                    } else {
+                        "HNotAscii".to_string()
+                    }
+                }
+            });
+        }
+        rt.block_on(async { server.close().await.ok() });
+    }
+    let coq = format!(
+        "(CPipe {} {} {} {} {} {} {})",
+        g_list(&case.chain, |c| g_str(c)),
+        g_list(&case.eps, g_ep),
+        g_list(&codes, |c| c.to_string()),
+        g_opt(&case.policy_max, |i| i.to_string()),
+        g_bool(did_start),
+        g_list(&reqs.iter().zip(hdrs.iter()).collect::<Vec<_>>(), |(r, h)| format!(
+            "({},{},{})",
+            g_str(&r.path),
+            g_str(&r.method),
+            h
+        )),
+        g_list(&obs, g_obs)
+    );
+    let n = |f: fn(&Obs) -> bool| obs.iter().filter(|o| f(o)).count();
+    let mut tags = vec![
+        "pipeline".to_string(),
+        format!("policy:{}", if case.policy_max.is_some() { "header" } else { "unversioned" }),
+        format!("started:{}", did_start),
+    ];
+    for _ in 0..n(|o| matches!(o, Obs::Found { .. })) { tags.push("pipe:found".into()); }
+    for _ in 0..n(|o| matches!(o, Obs::E404)) { tags.push("pipe:404".into()); }
+    for _ in 0..n(|o| matches!(o, Obs::E405 { .. })) { tags.push("pipe:405".into()); }
+    for _ in 0..n(|o| matches!(o, Obs::E400)) { tags.push("pipe:400".into()); }
+    let mut kept = case.clone();
+    kept.reqs = reqs.into_iter().cloned().collect();
+    Some(Line {
+        group: "pipeline",
+        case: serde_json::to_value(&kept).unwrap(),
+        obs: json!({"registration": codes, "started": did_start, "requests": obs.len(),
+                     "first": obs.iter().take(6).collect::<Vec<_>>()}),
+        coq,
+        tags,
+        nontrivial: case.eps.len() >= 2 || !did_start,
+    })
+}
+
+pub fn gen_pipeline(opts: &Opts) -> Vec<PipeCase> {
+    let mut rng = Rng::new(opts.seed ^ 0x919e);
+    let n = if opts.thorough { 1500 } else { 150 };
+    let mut out = vec![];
+    while out.len() < n {
+        let chain = crate::c05::chain_for(&mut rng);
+        let base = gen_case(&mut rng, 4, 5, 4, &chain);
+        let vs: Vec<Version> = chain.iter().map(|s| Version::parse(s).unwrap()).collect();
+        // one case in eight: the unversioned policy (a versioned table must then be refused at start)
+        let policy_max = if rng.chance(1, 8) { None } else { Some(rng.below(chain.len())) };
+        // header values: every chain version, versions between and beyond them, and junk
+        let mut pool: Vec<Option<Vec<u8>>> = vec![None];
+        for v in &vs {
+            pool.push(Some(v.to_string().into_bytes()));
+            pool.push(Some(format!("{}.{}.{}-rc.1", v.major, v.minor, v.patch).into_bytes()));
+            pool.push(Some(format!("{}.{}.{}+zz", v.major, v.minor, v.patch).into_bytes()));
+            pool.push(Some(format!("{}.{}.{}", v.major, v.minor, v.patch + 1).into_bytes()));
+        }
+        for junk in ["", "1", "1.0", "v1.0.0", "latest", " 1.0.0 ", "999.0.0", "0.0.0-0", "0.0.0", "1.0.0-01"] {
+            pool.push(Some(junk.as_bytes().to_vec()));
+        }
+        pool.push(Some(vec![b'1', b'.', b'0', b'.', b'0', 0xe9]));
+        pool.push(Some(vec![0xff]));
+        let nreq = if opts.thorough { 60 } else { 40 };
+        let mut reqs = vec![];
+        for _ in 0..nreq {
+            let path = base.paths[rng.below(base.paths.len())].clone();
+            let method = base.methods[rng.below(base.methods.len())].clone();
+            // three in five: a version the policy accepts (a chain version up
+            // to the maximum, or one just below such a version)
+            let header = match policy_max {
+                Some(mx) if rng.chance(3, 5) => {
+                    let v = &vs[rng.below(mx + 1)];
+                    Some(if rng.chance(1, 4) {
+                        format!("{}.{}.{}-0.a", v.major, v.minor, v.patch).into_bytes()
+                    } else {
+                        v.to_string().into_bytes()
+                    })
+                }
+                _ => pool[rng.below(pool.len())].clone(),
+            };
+            reqs.push(PipeReq { method, path, header });
+        }
+        out.push(PipeCase { chain, eps: base.eps, policy_max, reqs });
+    }
+    out
+}
+
 fn r_close_needed(_o: &Obs) -> bool {
     false
 }
@@ -900,6 +1103,22 @@ pub fn gen_small(opts: &Opts) -> Vec<Case> {
 }
 
 pub fn run(opts: &Opts, replay: Option<Vec<serde_json::Value>>, out: &mut dyn Write, conflict_rate: usize) {
+    if opts.mode == "pipeline" {
+        let cases: Vec<PipeCase> = match replay {
+            Some(vs) => vs
+                .into_iter()
+                .filter(|v| v.get("reqs").is_some())
+                .map(|v| serde_json::from_value(v).expect("pipeline case"))
+                .collect(),
+            None => gen_pipeline(opts),
+        };
+        for c in &cases {
+            if let Some(l) = exec_pipeline(c) {
+                emit(out, &l);
+            }
+        }
+        return;
+    }
     let live = opts.mode == "live";
     let cases: Vec<Case> = match replay {
         Some(vs) => vs
